@@ -126,6 +126,17 @@ def run(m: Model, r: Report, tier: str) -> None:
     r.rule("R4", "the cursor advances past every matched row; a NULL reply resets the state and yields silence; replies are parsed with the client's parser", floor=4)
     r.rule("R5", "address rows are never replaced (runs of the same target stay linked to their ECU)", floor=2)
     r.rule("R6", "the recorded reply bytes depend on the reply object alone (stored whenever the ECU answered, also for illegal replies)", floor=1)
+    r.rule("R8", "the replaying server answers from the recording alone: every built-in default behaviour of UDSServer is switched off in DBUDSServer.Behavior "
+           "(a default answer or the suppression of a recorded reply would differ from what the recorded ECU did)", floor=9)
+    ubeh = m.require_class(f"{SRV}.UDSServer").nested.get("Behavior")
+    dbeh = m.require_class(f"{SRV}.DBUDSServer").nested.get("Behavior")
+    if ubeh is None or dbeh is None or not ubeh.class_annots:
+        raise AnalysisError("UDSServer.Behavior / DBUDSServer.Behavior vanished")
+    for sw in ubeh.class_annots:
+        d_ = dbeh.class_attrs.get(sw)
+        r.check(isinstance(d_, ast.Constant) and d_.value is False, "R8", f"{dbeh.qualname}.{sw}#off",
+                f"switch {sw} is {ast.unparse(d_) if d_ is not None else 'inherited (on)'} in the replay server: requests the recorded ECU answered (or ignored) itself are "
+                "then answered / suppressed by the built-in rule instead of the recording", loc=dbeh.loc)
     r.rule("R7", "the vecu command forwards both selectors (ECU name and properties) unaltered to the replay server, which binds both into the query", floor=3)
 
     cu = m.require_function(f"{ECU}.ECU.update_state")
